@@ -2,6 +2,7 @@
 Concrete values are Python ints (caller tracks widths); symbolic values are E nodes.
 Booleans are 1-bit vectors; guards may also be Python True/False."""
 import z3
+import os as _os
 
 _TAB = {}
 _CNT = [0]
@@ -132,6 +133,8 @@ def contradicts(x, y):
     """cheap syntactic proof that x and y cannot both hold (sound, incomplete)"""
     if is_c(x) or is_c(y):
         return (is_c(x) and x == 0) or (is_c(y) and y == 0)
+    if not _os.environ.get('LLSYM_CONTRA'):
+        return False  # syntactic contradiction pruning is opt-in: it made merge lemmas slower, see DESIGN.md §9
     cx, cy = conjuncts(x), conjuncts(y)
     if len(cy) > len(cx):
         cx, cy = cy, cx
@@ -268,7 +271,7 @@ def map_cl(f, x, obits):
         yes = [g for v, g in x.args if f(v) & 1]
         no = [g for v, g in x.args if not f(v) & 1]
         # the guards are exhaustive: express the predicate through the smaller side
-        if len(no) < len(yes):
+        if len(no) < len(yes) and not _os.environ.get('LLSYM_NO_NORMPRED'):
             r = 0
             for g in no:
                 r = or_(r, g, 1)
